@@ -302,6 +302,26 @@ class DataGen(object):
         self.add(*(first + [("let", tg, ("ostr", text), r.random() < 0.3)]))
         self.add(P(self.tag(), ";", tg, ";", ("str", "|"), ";", ("fn", "LEN", [tg])))
 
+    def block_oddchars(self):
+        """Characters that line-splitting routines of the host language (not the tool's grammar) take for line ends, inside a
+        constant, a quoted and an unquoted DATA item and an INPUT prompt: PRINT, READ and the string functions see one line."""
+        r = self.r
+        odd = ["\x0b", "\x0c", "\x1c", "\x1d", "\x1e", "\x85", "\u2028", "\u2029"]
+        c1, c2, c3 = r.choice(odd), r.choice(odd), r.choice(odd)
+        lit = "PAGE" + c1 + "TWO"
+        self.add(("let", ("var", "OC$"), ("str", lit), False),
+                 P(self.tag(), ";", ("str", "A" + c2 + "B"), ";", ("var", "OC$"), ";", ("fn", "LEN", [("var", "OC$")]), ";",
+                   ("fn", "INSTR", [n(1), ("var", "OC$"), ("str", c1)]), ";", ("fn", "STRING$", [n(2), ("str", c3)])))
+        if r.random() < 0.6:
+            if self.first_read is None:
+                self.first_read = ("var", "OD$")
+            d = ("data", [("q", "P" + c2 + "Q"), ("u", "R" + c3 + "S")])
+            if self.data_before:
+                self.add(d)
+            else:
+                self.data_lines.append([d])
+            self.add(("read", [("var", "OD$"), ("var", "OE$")]), P(self.tag(), ";", ("var", "OD$"), ";", ("var", "OE$"), ";", ("fn", "LEN", [("var", "OE$")])))
+
     def block_uninit(self):
         # reads of never-assigned variables / elements: 0 and "" in Color BASIC
         r = self.r
@@ -317,7 +337,7 @@ class DataGen(object):
         r = self.r
         self.uses_g = False
         self.add(("let", ("var", "A"), n(r.randint(0, 5)), False), ("let", ("var", "A$"), ("str", r.choice(["Q", "HI", ""])), False))
-        kinds = ["array", "data", "print", "input", "strfn", "uninit", "capacity", "openstr"]
+        kinds = ["array", "data", "print", "input", "strfn", "uninit", "capacity", "openstr", "oddchars"]
         for _ in range(nblocks):
             k = r.choice(kinds)
             if k == "array" and not (self.arr_names and self.sarr_names):
@@ -398,13 +418,25 @@ def compare(prog, inputs, opts, hyp=()):
         from .c13 import cli_convert
 
         conv = cli_convert(text, "prog", opts.get("default_str_storage", 32), opts.get("initialize_vars", False), False, deps=False)
+    elif opts.get("bundle"):
+        # the program with its runtime procedures in front of it (the command line's default): the program is the last
+        # procedure of the text, and it is the same program
+        conv = harness.convert(text, output_dependencies=True, procname="prog", **{k: v for k, v in opts.items() if k != "bundle"})
     else:
         conv = harness.convert(text, **opts)
     if not conv["ok"]:
         res["problems"].append(("refused" if conv["documented"] else "internal", conv.get("exc")))
         return res
     res["emitted"] = conv["out"]
-    b = harness.run_b09(conv["out"], inputs=inputs, budget=60000, storage=opts.get("default_str_storage", 32))
+    procs = None
+    if opts.get("bundle"):
+        allp, perr = harness.parse_b09(conv["out"])
+        if allp is None:
+            res["problems"].append(("b09-parse", perr))
+            return res
+        procs = [allp[-1]]
+        res["emitted"] = conv["out"][-1500:]
+    b = harness.run_b09(conv["out"], inputs=inputs, budget=60000, storage=opts.get("default_str_storage", 32), procs=procs)
     if b["status"] != "ok":
         res["problems"].append(("b09-" + b["status"], b["error"]))
         return res
@@ -509,6 +541,8 @@ def run_case(case):
     opts = {"initialize_vars": case["init"], "default_str_storage": storage}
     if case.get("cli"):
         opts["cli"] = True
+    elif case.get("bundle"):
+        opts["bundle"] = True
     obs = {"counters": {}, "viols": [], "sets": {}}
     obs["key"] = progtools.prog_key(prog) + "|%s|%s" % (storage, case["init"])
     r = compare(prog, inputs, opts)
@@ -554,4 +588,4 @@ def cases(tier, seed):
     N = 1500 if tier == "quick" else 250000
     for i in range(N):
         yield {"seed": seed * 104723 + i, "nblocks": 1 + i % 4, "storage": 32 if i % 3 else [80, 80, 33, 255, 64][(i // 3) % 5], "init": i % 4 != 3, "sample": i % 500 == 0,
-               "cli": i % 9 == 6}
+               "cli": i % 9 == 6, "bundle": i % 9 == 3}
